@@ -30,6 +30,21 @@ func (d *detReader) Read(p []byte) (int, error) {
 	return len(p), nil
 }
 
+// flakyReader fails exactly one Read (the failAt-th) with an injected error and works before and after.
+type flakyReader struct {
+	r      io.Reader
+	failAt int
+	n      int
+}
+
+func (f *flakyReader) Read(b []byte) (int, error) {
+	f.n++
+	if f.n == f.failAt {
+		return 0, &ioFault{what: "random source"}
+	}
+	return f.r.Read(b)
+}
+
 // periodicReader yields an endless stream with the given period.
 type periodicReader struct {
 	period int
@@ -180,7 +195,7 @@ func TestC19_P_FixtureGenerators(t *testing.T) {
 				de = testutil.GenerateFile(rec, ls, r, size)
 			case "UnixFSDirectory":
 				bw := rapid.SampledFrom([]int{0, 2, 4, 8}).Draw(t, "bitwidth")
-				dirname := rapid.SampledFrom([]string{"", "", "/sub", "/a/b c"}).Draw(t, "dirname")
+				dirname := rapid.SampledFrom([]string{"", "", "/sub", "/a/b c", "release-1.2", "/example.org", "/v1.0/data.d"}).Draw(t, "dirname")
 				opt = fmt.Sprintf("bitwidth=%d dirname=%q", bw, dirname)
 				opts := []testutil.Option{testutil.WithRandReader(r), testutil.WithShardBitwidth(bw)}
 				if dirname != "" {
@@ -298,9 +313,22 @@ func TestC19_P_UnixFSDirectoryManySeeds(t *testing.T) {
 		var de testutil.DirEntry
 		var err error
 		rec := &recT{}
+		// the directory may be generated below a named path (dots in it are ordinary characters), and the random source may
+		// fail once (any io.Reader can): then the generator may report the error, but a description it does return must hold
+		dirname := rapid.SampledFrom([]string{"", "", "", "/example.org", "rel-1.2", "/a.b/c.d"}).Draw(t, "dirname")
+		var src io.Reader = &detReader{s: seed}
+		flakyAt := 0
+		if which == "UnixFSDirectory" && rapid.IntRange(0, 3).Draw(t, "flakySource") == 0 {
+			flakyAt = rapid.IntRange(1, 120).Draw(t, "flakyAt")
+			src = &flakyReader{r: src, failAt: flakyAt}
+		}
 		p, stack := safe(func() {
 			if which == "UnixFSDirectory" {
-				de, err = testutil.UnixFSDirectory(*ls, size, testutil.WithRandReader(&detReader{s: seed}), testutil.WithShardBitwidth(bw))
+				opts := []testutil.Option{testutil.WithRandReader(src), testutil.WithShardBitwidth(bw)}
+				if dirname != "" {
+					opts = append(opts, testutil.WithDirname(dirname))
+				}
+				de, err = testutil.UnixFSDirectory(*ls, size, opts...)
 			} else {
 				de = testutil.GenerateDirectory(rec, ls, &detReader{s: seed}, size, bw != 0)
 			}
@@ -308,12 +336,22 @@ func TestC19_P_UnixFSDirectoryManySeeds(t *testing.T) {
 		if p != nil {
 			t.Fatalf("C19: %s (seed %d, size %d, bitwidth %d) panicked: %v\n%s", which, seed, size, bw, p, stack)
 		}
+		if err != nil && flakyAt != 0 && strings.Contains(err.Error(), "verif-injected") {
+			ev.Case("random-source-failure-reported", false, "random-source-failure-reported")
+			return
+		}
 		if err != nil {
-			t.Fatalf("C19: %s (seed %d, size %d, bitwidth %d) returned an error: %v", which, seed, size, bw, err)
+			t.Fatalf("C19: %s (seed %d, size %d, bitwidth %d, dirname %q) returned an error: %v", which, seed, size, bw, dirname, err)
 		}
 		stats := map[string]int{}
 		if cerr := c19Check(ls, de, de.Root, de.Path, true, stats, 0); cerr != nil {
-			t.Fatalf("C19: %s (seed %d, size %d, bitwidth %d): description does not match the stored DAG: %v", which, seed, size, bw, cerr)
+			t.Fatalf("C19: %s (seed %d, size %d, bitwidth %d, dirname %q, random source failing at read #%d (0 = never)): description does not match the stored DAG: %v", which, seed, size, bw, dirname, flakyAt, cerr)
+		}
+		if flakyAt != 0 {
+			ev.Count("flaky-source-survived", 1)
+		}
+		if dirname != "" {
+			ev.Count("dirname:"+dirname, 1)
 		}
 		ev.Case(fmt.Sprintf("%s %d", which, seed), stats["depth"] >= 2, "gen:"+which, fmt.Sprintf("depth:%d", stats["depth"]))
 		ev.Sample(map[string]any{"generator": which, "seed": seed, "size": size, "bitwidth": bw, "files": stats["files"], "dirs": stats["dirs"]})
